@@ -2681,6 +2681,18 @@ func (s *swamp) CloneAndDeleteMatchingTreasures(beaconType BeaconType, order Bea
 		return nil, false, errors.New("beacon not available for the requested type/order")
 	}
 
+	if capPredicate != nil {
+		// The beacon's own pre-count only sees treasures held by the walked index;
+		// matching treasures outside of it (e.g. no CreatedAt / ExpiredAt for a time
+		// index) use up Cap budget as well. capMu is held (see above).
+		if outside := int32(s.beaconKey.CountMatching(capPredicate) - bcn.CountMatching(capPredicate)); outside > 0 {
+			capMax -= outside
+			if capMax <= 0 {
+				return nil, true, nil
+			}
+		}
+	}
+
 	shiftedTreasures, capReached := bcn.ShiftMatching(int(howMany), predicate, capPredicate, int(capMax))
 
 	// Drop shifted treasures from every sibling index — same as
